@@ -280,4 +280,25 @@ theorem histCall_refines (flag : Bool) (edges vals : List Rat) :
     histOf Gen.infHistCall flag edges vals = histY flag edges vals := by
   simp only [Gen.infHistCall, Gen.Default.infHistCall, histOf, evalDensity]
 
+/-! ### the calls in `__init__` -/
+
+/-- the properties are initialised in the model's order (hue before colour, …, column before row) -/
+theorem initOrder_refines : Gen.infInitCalls.map (·.1) = PROPS := by
+  simp only [Gen.infInitCalls, Gen.Default.infInitCalls]; decide
+
+/-- the model's initialisation of all mapped dimensions follows the translated sequence of calls -/
+theorem initAll_refines (st : State) (maps : List (String × Mapping)) :
+    initAll st maps = (Gen.infInitCalls.map (·.1)).foldl (fun st p => match lookupMap maps p with
+      | some m => initMappedDim st p m
+      | none => st) st := by
+  rw [initOrder_refines]; rfl
+
+/-- the kind of default style values `__init__` hands to `init_mapped_dim` for a property -/
+def defaultOf (p : String) : Option Gen.StyleDefault := (Gen.infInitCalls.find? (·.1 == p)).map (·.2)
+
+theorem styleDefaults_refines :
+    defaultOf "marker" = some (.cycle "_MARKERS_DEFAULT") ∧ defaultOf "linestyle" = some (.cycle "_LINESTYLES_DEFAULT") ∧
+    defaultOf "markersize" = some (.linspace 3 9) ∧ defaultOf "linewidth" = some (.linspace 1 3) := by
+  simp only [defaultOf, Gen.infInitCalls, Gen.Default.infInitCalls]; decide
+
 end Infini
